@@ -747,7 +747,7 @@ func init() {
 	vh.AddPart("C20", "pool-interleavings", "sim", vh.Opts{NoConfirm: true, Shards: 8, TimeoutS: 400},
 		func(e *vh.Env) []c20Sched {
 			var cs []c20Sched
-			for _, k := range []string{"put-vs-shutdown", "cleanup-vs-get", "cleanup-vs-put", "get-vs-get"} {
+			for _, k := range []string{"put-vs-shutdown", "put-vs-shutdown-empty", "cleanup-vs-get", "cleanup-vs-put", "get-vs-get"} {
 				for mi := 1; mi <= 3; mi++ {
 					cs = append(cs, c20Sched{k, mi})
 				}
@@ -785,6 +785,14 @@ func init() {
 				switch c.Kind {
 				case "put-vs-shutdown":
 					pool.Put("b0", mk())
+					s.Go(putOne)
+					s.Go(func() { pool.Shutdown(); shutdown = true })
+				case "put-vs-shutdown-empty":
+					// the backend's pool exists but holds nothing at that moment
+					pool.Put("b0", mk())
+					if cn := pool.Get("b0"); cn != nil {
+						held[cn.(*fakeConn)]++
+					}
 					s.Go(putOne)
 					s.Go(func() { pool.Shutdown(); shutdown = true })
 				case "get-vs-get":
